@@ -490,6 +490,10 @@ func extractLogic(repo string) (string, []string, error) {
 		{"batchFull", "def batchFull (size bytes maxSize maxBytes : Nat) : Bool := untranslated (size, bytes, maxSize, maxBytes)", piece_batchFull},
 		{"batchNoFit", "def batchNoFit (size bytes msz maxBytes : Nat) : Bool := untranslated (size, bytes, msz, maxBytes)", piece_batchNoFit},
 		{"tooLarge", "def tooLarge (msz batchBytes : Nat) : Bool := untranslated (msz, batchBytes)", piece_tooLarge},
+		{"defaults", "def effBatchSize (n : Nat) : Nat := if untranslated n then 0 else 0\ndef effBatchBytes (n : Nat) : Nat := if untranslated n then 0 else 0\ndef effMaxAttempts (n : Nat) : Nat := if untranslated n then 0 else 0", piece_defaults},
+		{"timerArm", "def timerArmSites : List String := []", piece_timerArm},
+		{"readRecord", "def readRecordResets : Bool := untranslated ()", piece_readRecord},
+		{"roundTripDeadline", "def roundTripDeadlineSetters : List String := []", func(ef, wf *ast.File) (string, error) { return piece_roundTripDeadline(repo) }},
 	}
 	var sb strings.Builder
 	var failed []string
